@@ -45,9 +45,11 @@ struct Pay { u64 n; unsigned aux; };
 static void fill(QE &e, Pay p, unsigned op) { e.Type = ET::NaturalNumber; e.Value.Number.Natural = p.n; e.Value.Offset = p.aux; e.Operation = OP(op); }
 alignas(8) static unsigned char g_arr_mem[sizeof(Array<QE>)];
 static const QE *g_first; static unsigned g_fetch_mask; static bool g_fetch_bad;
-template <typename F> static void build(Array<QE> &arr, F leaf) {
-    for (unsigned i = 0; i < K; i++) { QE e; fill(e, leaf(i, top_val[i]), top_op[i]); arr += Memory::Move(e); }
-    g_first = arr.First(); g_fetch_mask = 0; g_fetch_bad = false;
+// evaluate() takes a plain pointer into the list: the items live in a typed local array of the harness (no heap; the real
+// Array<QExpression> made the K = 3 query take minutes)
+template <typename F> static void build(QE *items, F leaf) {
+    for (unsigned i = 0; i < K; i++) fill(items[i], leaf(i, top_val[i]), top_op[i]);
+    g_first = items; g_fetch_mask = 0; g_fetch_bad = false;
 }
 // stand-in for GetExpressionValue inside the precedence queries: copy the payload; log which item was fetched
 extern "C" bool fn_gev(const TC *self, QE *result, const QE *expr, unsigned char op) {
@@ -93,10 +95,10 @@ static Enc climb_tree(const unsigned *ops, const Enc *prim, unsigned n, unsigned
 }
 extern "C" void h_tree() {
     pick_list();
-    Array<QE> &arr = *new (g_arr_mem) Array<QE>{SizeT(K)};     // never destroyed: the list's destructor is not the subject
-    build(arr, [](unsigned id, u64 v) { Enc e = enc_leaf(id); Pay p; p.n = e.bits; p.aux = e.len; return p; });
+    QE items[K]; const QE *first = items;
+    build(items, [](unsigned id, u64 v) { Enc e = enc_leaf(id); Pay p; p.n = e.bits; p.aux = e.len; return p; });
     TC tc{nullptr, 0};
-    const QE *expr = arr.First(); QE result;
+    const QE *expr = first; QE result;
     g_calls = 0;
     bool ok = tc.evaluate(result, expr, OP::NoOp);
     // reference
@@ -106,15 +108,15 @@ extern "C" void h_tree() {
     vf_assert(ok, 1);
     vf_assert(result.Value.Number.Natural == want.bits && result.Value.Offset == want.len, 2);      // the same tree
     vf_assert(g_calls == K - 1 && !g_fetch_bad && g_fetch_mask == (1u << K) - 1u, 3);               // every operator applied once, every item fetched once
-    vf_assert(expr == arr.First() + (K - 1), 4);                                                    // cursor on the last item
+    vf_assert(expr == first + (K - 1), 4);                                                    // cursor on the last item
     vf_witness();
 }
 extern "C" void h_fail() {
     pick_list();
-    Array<QE> &arr = *new (g_arr_mem) Array<QE>{SizeT(K)};     // never destroyed: the list's destructor is not the subject
-    build(arr, [](unsigned id, u64 v) { Pay p; p.n = v; p.aux = 0; return p; });
+    QE items[K]; const QE *first = items;
+    build(items, [](unsigned id, u64 v) { Pay p; p.n = v; p.aux = 0; return p; });
     TC tc{nullptr, 0};
-    const QE *expr = arr.First(); QE result;
+    const QE *expr = first; QE result;
     g_calls = 0; g_after_fail = false; g_fail_at = vf_u8();
     const unsigned total = K - 1;
     vf_assume(g_fail_at < total);
@@ -180,10 +182,10 @@ static bool ambiguous(const unsigned *ops, unsigned n) {
 extern "C" void h_doc() {
     pick_list();
     vf_assume(!ambiguous(top_op, K));
-    Array<QE> &arr = *new (g_arr_mem) Array<QE>{SizeT(K)};     // never destroyed: the list's destructor is not the subject
-    build(arr, [](unsigned id, u64 v) { Pay p; p.n = v; p.aux = 0; return p; });
+    QE items[K]; const QE *first = items;
+    build(items, [](unsigned id, u64 v) { Pay p; p.n = v; p.aux = 0; return p; });
     TC tc{nullptr, 0};
-    const QE *expr = arr.First(); QE result;
+    const QE *expr = first; QE result;
     g_calls = 0; g_unsupported = false;
     bool ok = tc.evaluate(result, expr, OP::NoOp);
     DV tp[K];
